@@ -281,8 +281,33 @@ def replay_l2(ctx, hists, name):
     hp = ctx.path("hists-%s.jsonl" % name)
     tp = ctx.path("trace-%s.ndjson" % name)
     write_hists(hp, hists)
-    p = ctx.run([binp, "-in", hp, "-out", tp, "-seed", str(ctx.seed)], timeout=1800)
-    return tp, json.loads(p.stdout.strip().splitlines()[-1])
+    # sharded over processes (the driver observes RemoteLogin through one process-wide hook); seeds and history
+    # numbers are those of the unsharded run
+    import concurrent.futures
+    k = max(1, min(vlib.NCPU - 2, len(hists) // 200 + 1))
+
+    def shard(i):
+        sp = ctx.path("trace-%s-shard%d.ndjson" % (name, i))
+        p = ctx.run([binp, "-in", hp, "-out", sp, "-seed", str(ctx.seed), "-stride", str(k), "-offset", str(i)],
+                    timeout=1800)
+        return sp, json.loads(p.stdout.strip().splitlines()[-1])
+    with concurrent.futures.ThreadPoolExecutor(max_workers=k) as ex:
+        parts = list(ex.map(shard, range(k)))
+    blocks = []
+    for sp, _ in parts:
+        for hh in split_trace(sp):
+            blocks.append((json.loads(hh[0])["h"], hh))
+        os.remove(sp)
+    blocks.sort(key=lambda b: b[0])
+    with open(tp, "w") as f:
+        for _, hh in blocks:
+            f.writelines(hh)
+    stats = {}
+    for _, st in parts:
+        for kk, v in st.items():
+            stats[kk] = stats.get(kk, 0) + v
+    stats["histories"] = len(blocks)
+    return tp, stats
 
 
 L2_PROPS = ("C01", "C02", "C04", "C09", "C14")
@@ -345,7 +370,7 @@ def run_family(ctx, prop):
         g = json.loads(ctx.run([l3bin, "-mode", "gen", "-in", hp3, "-dir", d3, "-seed", str(ctx.seed)]).stdout.strip().splitlines()[-1])
         daemon = pipeline.build_daemon(ctx)
         rnd = random.Random(ctx.seed)
-        okr = sum(1 for i in range(g["scripts"]) if pipeline.run_script(daemon, d3, i, False, rnd))
+        okr = sum(1 for i in range(g["scripts"]) if pipeline.run_script(daemon, d3, i, False, random.Random(ctx.seed * 1000 + i)))
         if okr < g["scripts"] * 0.7:
             raise Infra("only %d of %d daemon runs could be carried out" % (okr, g["scripts"]))
         tp3 = ctx.path("trace-l3.ndjson")
